@@ -8,6 +8,7 @@
 //! buffer capacity and heap limit.
 
 mod c02;
+mod c14;
 mod c16;
 mod c17;
 mod case;
@@ -151,6 +152,17 @@ fn drive_simple(opts: &Opts, level: &str, label: &str, cases: u64, rule: &str, f
     rep.extra.insert("generated_cases".into(), json!(cases));
     rep.extra.insert("exhaustive_within_case".into(), json!(true));
     rep.assumptions = vec!["crash points are enumerated exhaustively within each generated case; cases themselves are sampled from the seed".into()];
+    if let Some(path) = opts.get("partial") {
+        // this engine contributes one leg of a property; another engine merges and reports
+        let v = json!({
+            "evaluations": rep.evaluations, "distinct": rep.distinct.iter().collect::<Vec<_>>(), "faults": rep.faults.to_json(), "probes": rep.probes.to_json(),
+            "samples": rep.samples, "rule": rep.rule, "extra": rep.extra,
+            "violations": rep.violations.iter().map(|v| json!({"class": v.class, "summary": v.summary, "subseed": v.subseed, "replay": v.replay})).collect::<Vec<_>>(),
+        });
+        write_json(std::path::Path::new(path), &v);
+        println!("C14 library leg: evaluations={} violations={} -> {path}", rep.evaluations, rep.violations.len());
+        return 0;
+    }
     rep.finish()
 }
 
@@ -165,6 +177,7 @@ fn main() {
             "c02c03" => c02::replay(&prop, &v, scratch.path()),
             "c16" | "c16-printer" => c16::replay(&v),
             "c17" => c17::replay(&v, scratch.path()),
+            "c14" => c14::replay(&v),
             k => harness_error(&format!("unknown replay kind {k}")),
         };
         match r {
@@ -184,6 +197,9 @@ fn main() {
         "C16" => drive_simple(&opts, "fault_enumeration", "c16", opts.cases(60_000, 3_000_000),
             "per generated case (<=24 lines; LF/CRLF; line and multi-line patterns; binary detection none/quit/convert with a planted NUL) the uninterrupted event stream E is recorded for the slice strategy and for a reader under a seeded history and buffer capacity; then EVERY crash point of that case is executed: each event index k (begin, match, context, separator, binary notice) x {stop, error} and each read index j x {error, Interrupted}; plus the Standard/JSON/Summary printers with max_matches=N for every N in 0..#matches+1 (slice and reader) and a writer failing after k bytes. One evaluation = one search run with one injected crash point. distinct_nontrivial = distinct generated cases whose uninterrupted stream has more than two events.",
             |sub, acc| c16::run_case(sub, acc)),
+        "C14" => drive_scratch(&opts, "exploration", "c14", opts.cases(25_000, 1_500_000),
+            "library leg: one evaluation = one search of generated text with 1-3 planted NUL bytes (first byte, last byte, inside or just after a matching line, around the 64 KiB sniff window, late, anywhere; 1 in 25 inputs > 70 KB) with binary detection none/quit/convert, as a slice and through 6 SimReader histories with randomised buffer capacity, in line and multi-line mode, recorded by SimSink and additionally printed by the Standard, Summary(count) and JSON printers into SimWriter.",
+            |sub, scratch, acc| c14::run_case(sub, scratch, acc)),
         "C17" => {
             let histories = if opts.thorough() { 16 } else { 8 };
             drive_scratch(&opts, "exploration", "c17", opts.cases(20_000, 1_500_000),
